@@ -11,8 +11,9 @@ rationals: every decision the frame takes is a comparison, so any ordered field 
 
 Array reads are checked (`Fault.oob`): the C++ reads `path[i]` / `norms[i]` unchecked, the model reports where an
 index leaves the vector.  `size_t` wrap-around of `path.size() - 1` for an empty path is harmless in every place it
-occurs before a fault (the loops it bounds do not execute), so `Nat` subtraction is used and the fault is returned
-at the first out-of-range read, exactly where the C++ commits it.
+occurs (the loops it bounds do not execute), so `Nat` subtraction is used.  Since `DoGroupOffset` skips empty
+paths (`if (pathLen == 0) continue;`) no fault is reachable from `executeInternal` (theorem `frame_safe` in
+Props/C07.lean); the per-path functions still report the fault they would commit if called on an empty path.
 -/
 import ClipperVerif.Spec.Basic
 import ClipperVerif.Spec.Enums
@@ -304,9 +305,14 @@ def idxTrace (et : EndType) (n : Nat) : List (Nat × Nat) :=
   | .joined => polygonIdx n ++ polygonIdx n
   | _ => (0, 0) :: upLoop (n - 1) (n - 1) 1 0 ++ (n - 1, n - 1) :: downLoop (n - 1 - 1) (n - 1)
 
-/-- `end_type_` after the 2-point override of `DoGroupOffset` -/
-def endTypeFor (jt : JoinType) (grpEt : EndType) (et : EndType) (len : Nat) : EndType :=
-  if len = 2 ∧ grpEt = .joined then (if jt = .round then .round else .square) else et
+
+/-- `end_type_` for a path of at least two points: `end_type_ = group.end_type;` followed by the 2-point override -/
+def endTypeFor (jt : JoinType) (grpEt : EndType) (len : Nat) : EndType :=
+  if len = 2 ∧ grpEt = .joined then (if jt = .round then .round else .square) else grpEt
+
+/-- the same for any path length: an empty path issues no call, a single point one `(0, 0)` -/
+def pathTrace (jt : JoinType) (grpEt : EndType) (n : Nat) : List (Nat × Nat) :=
+  if n = 0 then [] else if n = 1 then [(0, 0)] else idxTrace (endTypeFor jt grpEt n) n
 
 /-- the primitive chosen for a path of at least two points (or none) by `end_type_` -/
 def offsetByEndType (g : Geo N) (jt : JoinType) (et : EndType) (tl gd : Rat) (path : Path) : Except Fault (List (Emit N)) :=
@@ -322,13 +328,15 @@ def singlePoint (jt : JoinType) (gd : Rat) (pt : Pt) : List (Emit N) :=
   else [.box pt (rabs gd), .endPath]
 
 /-- the body of the path loop of `DoGroupOffset` for one path; `et` is the member `end_type_` on entry,
-the result carries `end_type_` on exit (only the 2-point override changes it — and nothing restores it) -/
+the result carries `end_type_` on exit.  An empty path is skipped (`if (pathLen == 0) continue;`), a single
+point leaves `end_type_` alone, every other path first resets it to the group's end type. -/
 def doPath (g : Geo N) (jt : JoinType) (grpEt : EndType) (tl gd : Rat) (et : EndType) (path : Path) :
     Except Fault (EndType × List (Emit N)) :=
   match path with
+  | [] => .ok (et, [])
   | [pt] => .ok (et, singlePoint jt gd pt)
   | _ =>
-    let et' := endTypeFor jt grpEt et path.length
+    let et' := endTypeFor jt grpEt path.length
     match offsetByEndType g jt et' tl gd path with
     | .error e => .error e
     | .ok es => .ok (et', es)
@@ -349,10 +357,11 @@ def arcTolUsed (arcTolerance absDelta : Rat) : Rat :=
 
 /-- the prologue of `DoGroupOffset`: `delta_`, `group_delta_`, `join_type_`, `end_type_`, arc steps -/
 def groupSetup (arcTolerance : Rat) (grp : Group) (st : St) : St :=
-  let delta' := if grp.et = .polygon ∧ grp.lowest.isNone then rabs st.delta else st.delta
-  let gd := if grp.et = .polygon then (if grp.isReversed then -delta' else delta') else rabs st.delta
+  -- `const double d = group.lowest_path_idx.has_value() ? delta_ : std::abs(delta_);`  (`delta_` is not written)
+  let d := if grp.lowest.isSome then st.delta else rabs st.delta
+  let gd := if grp.et = .polygon then (if grp.isReversed then -d else d) else rabs st.delta
   let absDelta := rabs gd
-  { delta := delta', groupDelta := gd, jt := grp.jt, et := grp.et, tempLim := st.tempLim,
+  { delta := st.delta, groupDelta := gd, jt := grp.jt, et := grp.et, tempLim := st.tempLim,
     arc := if grp.jt = .round ∨ grp.et = .round then some (absDelta, arcTolUsed arcTolerance absDelta, decide (gd < 0)) else st.arc }
 
 /-- `DoGroupOffset` -/
@@ -375,7 +384,7 @@ def doGroups (g : Geo N) (arcTolerance : Rat) : St → List Group → Except Fau
 /-- `CheckReverseOrientation` -/
 def checkReverseOrientation : List Group → Bool
   | [] => false
-  | grp :: gs => if grp.et = .polygon then grp.isReversed else checkReverseOrientation gs
+  | grp :: gs => if grp.et = .polygon ∧ grp.lowest.isSome then grp.isReversed else checkReverseOrientation gs
 
 /-- constructor parameters of `ClipperOffset` -/
 structure Params where
@@ -387,7 +396,7 @@ structure Params where
 
 /-- what is handed to the clean-up union -/
 inductive Raw (N : Type)
-  /-- `|delta| < 0.5`: the stripped input paths themselves -/
+  /-- `|delta| < 0.5`: the stripped input paths of the Polygon groups themselves -/
   | copied (paths : Paths)
   /-- the primitives issued, in order -/
   | built (emits : List (Emit N))
@@ -417,7 +426,8 @@ def executeInternal (g : Geo N) (prm : Params) (groups : List Group) (delta : Ra
     let mk := fun (raw : Raw N) (final : Option St) =>
       (⟨raw, if rev then FillRule.negative else FillRule.positive, prm.reverseSolution != rev, prm.preserveCollinear, final⟩ : Frame N)
     if rabs delta < 1 / 2 then
-      let ps := groups.flatMap (·.paths)
+      -- only Polygon groups pass through: open paths have no area
+      let ps := (groups.filter (fun grp => grp.et = .polygon)).flatMap (·.paths)
       .ok (if ps.isEmpty then none else some (mk (.copied ps) none))
     else
       match doGroups g prm.arcTolerance (initSt prm delta) groups with
